@@ -511,6 +511,10 @@ func joinSet(v interface{}, operator string) (string, error) {
 func parseOperand(o interface{}, noWrap bool, negation bool) (string, error) {
 	switch operandType := o.(type) {
 	case string:
+		if negation {
+
+			return "!(" + operandType + ")", nil
+		}
 
 		return operandType, nil
 	case float64:
@@ -518,7 +522,7 @@ func parseOperand(o interface{}, noWrap bool, negation bool) (string, error) {
 		return fmt.Sprint(operandType), nil
 	case bool:
 
-		if operandType {
+		if operandType != negation {
 
 			return "true", nil
 		}
@@ -531,13 +535,13 @@ func parseOperand(o interface{}, noWrap bool, negation bool) (string, error) {
 
 			return expr, err
 		}
+		if negation {
+
+			return "!(" + expr + ")", nil
+		}
 		if expNoWrap || noWrap {
 
 			return expr, nil
-		}
-
-		if negation {
-			return "!(" + expr + ")", nil
 		}
 
 		return "(" + expr + ")", nil
